@@ -435,6 +435,79 @@ func runC10(c *config) {
 			o.Pass("decimal_spelling")
 		}
 	}
+	// decimal spellings next to a rounding boundary: the exact midpoint of two adjacent doubles (a tie, to even),
+	// and the midpoint moved by one unit in a late decimal place (not a tie: the nearer neighbour, however
+	// small the distance).  The oracle is exact rational arithmetic (big.Rat), not the library's own reader.
+	for i := 0; i < 1200*c.scale; i++ {
+		var lo float64
+		switch r.intn(6) {
+		case 0:
+			lo = math.Float64frombits(uint64(r.intn(4))) // the smallest subnormals
+		case 1:
+			lo = math.Float64frombits(0x7FEFFFFFFFFFFFFF - uint64(r.intn(2))) // the overflow boundary
+		case 2:
+			lo = math.Float64frombits(0x000FFFFFFFFFFFFF - uint64(r.intn(3))) // subnormal to normal
+		default:
+			lo = math.Float64frombits((uint64(1023-40+r.intn(80)) << 52) | r.next()>>12)
+		}
+		hi := math.Nextafter(lo, math.Inf(1))
+		mid := new(big.Rat).SetFloat64(lo)
+		if math.IsInf(hi, 1) {
+			mid.Add(mid, new(big.Rat).SetFrac(new(big.Int).Lsh(big.NewInt(1), 970), big.NewInt(1))) // 2^1024 - 2^970
+		} else {
+			mid.Add(mid, new(big.Rat).SetFloat64(hi))
+			mid.Quo(mid, big.NewRat(2, 1))
+		}
+		// the exact decimal expansion of the midpoint (a dyadic rational: it terminates)
+		digits := 0
+		for d := new(big.Int).Set(mid.Denom()); d.Cmp(big.NewInt(1)) > 0; d.Rsh(d, 1) {
+			digits++
+		}
+		exact := mid.FloatString(digits)
+		if !strings.Contains(exact, ".") {
+			exact += ".0"
+		}
+		extra := r.intn(40)
+		lits := []string{exact, exact + strings.Repeat("0", extra) + "1"}
+		// one unit less in the last place, then the same tail of nines
+		if trimmed := strings.TrimRight(exact, "0"); !strings.HasSuffix(trimmed, ".") {
+			last := trimmed[len(trimmed)-1]
+			lits = append(lits, trimmed[:len(trimmed)-1]+string(last-1)+strings.Repeat("9", 1+extra))
+		}
+		if r.coin() {
+			for k := range lits {
+				lits[k] = "-" + lits[k]
+			}
+		}
+		for which, lit := range lits {
+			k := c10Kinds[2]
+			o.Stat("decimal_near_tie")
+			c1, oc, msg := c10Parse(k, lit)
+			if oc != ocOk {
+				o.Fail("decimal_spelling", "", "decimal literal rejected: "+oc.String(), map[string]string{"kind": "double", "literal": lit, "msg": msg})
+				continue
+			}
+			q, _ := new(big.Rat).SetString(lit)
+			fw, _ := q.Float64()
+			f1, _ := c1.X.Float64()
+			printed, _ := c10Ident(c1)
+			c2, oc2, _ := c10Parse(k, printed)
+			f2 := math.NaN()
+			if oc2 == ocOk {
+				f2, _ = c2.X.Float64()
+			}
+			cls := ""
+			if math.Float64bits(f1) != math.Float64bits(fw) {
+				cls = c10NearTieClass(q, lo, hi)
+			}
+			if math.Float64bits(f1) != math.Float64bits(fw) || math.Float64bits(f2) != math.Float64bits(f1) {
+				o.Fail("decimal_spelling", cls, "decimal literal next to a rounding boundary not read as the correctly rounded double, or not stable",
+					map[string]interface{}{"kind": "double", "literal": lit, "printed": printed, "read_bits": fmt.Sprintf("0x%016X", math.Float64bits(f1)), "correct_bits": fmt.Sprintf("0x%016X", math.Float64bits(fw)), "which": which})
+			} else {
+				o.Pass("decimal_spelling")
+			}
+		}
+	}
 	o.Sample(map[string]interface{}{"kind": "half", "literal": "0xH3C00", "printed": func() string { c1, _, _ := c10Parse(c10Kinds[0], "0xH3C00"); s, _ := c10Ident(c1); return s }()})
 	o.Sample(map[string]interface{}{"kind": "x86_fp80", "literal": "0xK3FFF8000000000000000", "printed": func() string {
 		c1, _, _ := c10Parse(c10Kinds[3], "0xK3FFF8000000000000000")
@@ -494,3 +567,6 @@ func c10HalfAsDouble(c *config, k c10Kind, b uint16) {
 		o.Pass("float_round_trip")
 	}
 }
+
+// the known-finding class of a misread decimal (none so far)
+func c10NearTieClass(q *big.Rat, lo, hi float64) string { return "" }
